@@ -837,6 +837,12 @@ def r_worklist(ctx, rule='Q-WORKLIST'):
             wl = root(sel.arg_term(0))
             rems = [c for c in f.calls() if c.callee.endswith('RoaringBitmap>::remove_smallest') and root(c.arg_term(0)) == wl and const_eval(c.arg_term(1)) == 1]
             good = bool(rems) and loop_every_iteration(f, sel, rems[0].bb)
+            if good:
+                # the id removed is the id examined: nothing is added to the worklist between select(0) and remove_smallest(1)
+                others = [c for c in f.calls() if c.bb != rems[0].bb and c.args and root(c.arg_term(0)) == wl and c.callee.endswith(
+                    ('bitor_assign', 'RoaringBitmap>::insert', 'RoaringBitmap>::push', 'RoaringBitmap>::extend', 'bitxor_assign', 'RoaringBitmap>::append', 'sub_assign',
+                     'RoaringBitmap>::remove', 'remove_biggest', 'RoaringBitmap>::clear'))]
+                good = all(paths.must_pass(f, sel.target, [c.bb], [rems[0].bb]) for c in others)
             ctx.check(good, rule, f.path + '/pop-one', sel.loc(), 'the worklist loop removes exactly the id it examines', 'the over-full bucket worklist of `%s` does not remove the id it examines (or removes more): a bucket would be skipped or processed forever' % f.path)
             ors = [c for c in f.calls() if c.callee.endswith('bitor_assign') and root(c.arg_term(0)) == wl]
             okor = bool(ors) and any(any(s[0] == 'call' and s[1].startswith('writer::Writer') for s in walk(c.arg_term(1))) for c in ors)
@@ -846,6 +852,83 @@ def r_worklist(ctx, rule='Q-WORKLIST'):
             rmp = [c for c in f.calls() if c.callee == 'parallel::TmpNodes::<DE>::remap']
             okm = bool(rmp) and paths.mentions_call(rmp[0].arg_term(2), sel.bb)
             ctx.check(okm, rule, f.path + '/remap-onto-bucket', sel.loc(), 'the new subtree root is remapped onto the examined bucket id', 'the subtree built for an over-full bucket is not stored under that bucket\'s id: the parent would keep pointing to the old bucket')
+
+
+# --------------------------------------------------------------------------- worklist progress (C14)
+def r_progress(ctx, rule='Q-PROGRESS'):
+    """re-splitting an over-full bucket from a *partial* batch must not hand back a single bucket: the remainder would be
+    re-inserted into it, recreating the same over-full bucket, and the worklist would never drain"""
+    F = ctx.F
+    names = [s.path for s in selector(F)]
+    tcs = [f for f in F.lib_fns() if any(c.callee.endswith('Distance::create_split') for c in f.calls()) and f.path.startswith('writer::')]
+    if not ctx.need(len(tcs) >= 1, rule, 'tree constructor (function calling D::create_split)'):
+        return
+    n = 0
+    for T in tcs:
+        # bucket-return sites: a Descendants node made of the constructor's whole input
+        item_param = None
+        for l in T.arg_locals():
+            if 'RoaringBitmap' in T.local_ty(l):
+                item_param = l
+        guards = []  # (param local, truth required on the bucket path)
+        bucket_sites = []
+        for c in T.calls():
+            if c.callee == 'parallel::TmpNodes::<DE>::put':
+                d = paths.agg_fields(c.arg_term(2), 'node::Descendants')
+                if d and any(x[0] == 'arg' and x[1] == item_param for x in walk(d['descendants'])):
+                    bucket_sites.append(c)
+                    for s0, x0, e in paths.controlling_conds(T, c.bb):
+                        if e[0] == 'bool' and paths.edge_dominates(T, s0, x0, c.bb):
+                            t0 = strip(e[1])
+                            if t0[0] == 'arg' and T.local_ty(t0[1]) == 'bool':
+                                guards.append((t0[1], e[2]))
+        for W in F.lib_fns():
+            if not W.path.startswith('writer::Writer') or W.path == T.path:
+                continue
+            for c in W.calls():
+                if c.callee != T.path:
+                    continue
+                # is the input a selector batch, with the remainder inserted afterwards?
+                batch = None
+                for i in range(len(c.args)):
+                    t = strip(c.arg_term(i))
+                    if t[0] == 'field' and t[2] == '1':
+                        for x in walk(t):
+                            if x[0] == 'call' and x[1] in names:
+                                batch = x
+                if batch is None:
+                    continue
+                cand = root(batch[2][3])
+                later = []
+                for x in W.calls():
+                    if x.callee.startswith('writer::Writer') and x.bb != c.bb and x.bb in W.reachable(c.target):
+                        for i in range(len(x.args)):
+                            r = root(x.arg_term(i))
+                            if r == cand or (r[0] == 'call' and cand[0] == 'call' and r[3] == cand[3]):
+                                later.append(x)
+                if not later:
+                    continue
+                n += 1
+                key = '%s->%s' % (W.path, short(T.path))
+                good = False
+                why = 'the constructor can return a single bucket for a fitting batch whatever remains to be inserted'
+                for pl, need in guards:
+                    at = strip(c.arg_term(pl - 1))
+                    neg = False
+                    while at[0] == 'unop' and at[1] == 'Not':
+                        at = strip(at[2])
+                        neg = not neg
+                    if at[0] == 'call' and at[1].endswith('RoaringBitmap>::is_empty') and at[2]:
+                        r = root(at[2][0])
+                        if r == cand or (r[0] == 'call' and cand[0] == 'call' and r[3] == cand[3]):
+                            val_when_remainder = (not False) if neg else False  # is_empty() is false when a remainder exists
+                            if val_when_remainder != need:
+                                good = True
+                                why = 'the bucket shortcut of the constructor is disabled while a remainder exists'
+                ctx.check(good, rule, key, c.loc(), why,
+                          'in `%s` an over-full bucket is rebuilt from a partial batch by `%s`, which may return one bucket when the batch fits, and the remainder is then re-inserted into it (%s): with a bucket capacity >= the minimum batch size and a small memory hint the same over-full bucket is recreated forever and the build never terminates' % (
+                              W.path, short(T.path), ', '.join(sorted({short(x.callee) for x in later}))))
+    ctx.floor(rule, 'partial-batch rebuilds of an over-full bucket', n, 1)
 
 
 # --------------------------------------------------------------------------- memory hint (C14)
